@@ -316,6 +316,8 @@ H("sendbuf_poll_transmit_retransmit_native", ["C01"], "replay-only", "connection
   ["SendBuffer::poll_transmit"], "native replay body of E2 query e2_sendbuf_poll_transmit")
 H("endpoint_stateless_reset_native", ["C03", "C07"], "replay-only", "endpoint::stateless_reset_native",
   [("inciting_len", "u16")], 4, [], ["Endpoint::stateless_reset"], "native replay body of E2 query e2_stateless_reset")
+H("endpoint_retire_and_drained_native", ["C09", "C08"], "replay-only", "endpoint::retire_and_drained_native",
+  [("allow_more", "bool")], 4, [], ["Endpoint::handle_event", "Endpoint::send_new_identifiers", "ConnectionIndex::retire", "ConnectionIndex::remove"], "native replay body of E2 query e2_endpoint_retire_and_drained_events")
 H("token_bloom_replay_native", ["C14"], "replay-only", "token::bloom_replay_native",
   [("n", "u16"), ("budget", "u16")], 4, [], ["BloomTokenLog::check_and_insert", "Filter::check_and_insert"], "native replay body of E2 query e2_bloom_filter_check_and_insert (replay workspace builds quinn-proto with its `bloom` feature)")
 H("token_from_header_native", ["C14"], "replay-only", "token::from_header_native",
